@@ -126,7 +126,7 @@ class AGen:
             return {"k": kind, "n": r.choice([1, 2, 2, 3]), "timeout": to, "key": key}
         if kind == "latest":
             return {"k": kind}
-        if kind == "zip":
+        if kind in ("zip", "zip3"):
             return {"k": kind, "maxsize": r.choice([1, 1, 2, 3])}
         if kind == "map_async":
             return {"k": kind, "parallelism": r.choice([1, 1, 2, 3])}
@@ -141,7 +141,7 @@ class AGen:
         acts = []
         nrc = 0
         n = r.randint(1, self.max_actions)
-        nsrc = 2 if kind == "zip" else 1
+        nsrc = 2 if kind == "zip" else (3 if kind == "zip3" else 1)
         self.nextval = 0
         pe = r.choice([0.3, 0.5, 0.7])
         for _ in range(n):
